@@ -18,9 +18,7 @@ import os, subprocess
 from vlib import VERIF, CHAN_RUSTFLAGS
 
 THEOREMS = [l.strip() for l in open(os.path.join(VERIF, "props", "oneshotb.theorems")) if l.strip() and not l.startswith("#")]
-MODULE = "Fv.Props.OneshotBWit"            # the decide witnesses; the invariant theorems (module Fv.Props.OneshotB) are listed in
-                                          # props/oneshotb.pending.theorems until their preservation lemmas have been built once
-MODULE_PENDING = "Fv.Props.OneshotB"
+MODULE = "Fv.Props.OneshotB"             # imports Fv.Props.OneshotBWit (the decide witnesses)
 CORPUS = os.path.join(VERIF, "corpus", "oneshotb")
 
 ASSUMPTIONS = [
